@@ -7,6 +7,7 @@ import (
 	"strings"
 
 	"kvassverif/internal/core"
+	"kvassverif/internal/e6"
 	"tkestack.io/kvass/pkg/target"
 )
 
@@ -239,7 +240,17 @@ func c19RandomOnce(r *core.Rng) *c19Scenario {
 
 const c19NDirected = 2 * 3 * 3 * 2 * 3 * 2
 
+func c19Base(tier string) int {
+	if tier == "thorough" {
+		return c19NDirected + 150000
+	}
+	return c19NDirected + 4000
+}
+
 func runC19(w *core.WorkerCtx, idx int) *core.CaseResult {
+	if base := c19Base(w.Tier); idx >= base {
+		return e6.RunC19K8s(w, idx-base)
+	}
 	var s *c19Scenario
 	if idx < c19NDirected {
 		s = c19Directed(idx)
@@ -404,17 +415,13 @@ func init() {
 		Level: "exploration",
 		Rule: "differential over the stub-cycle engine: scenario = options + discovery + explorer table + a victim replica scripted for 4-5 cycles + a hostile replica (shard listing fails, scaling fails early/late, entirely unready, out of sync, a different placement of the same targets incl. in-transfer copies with larger series than the explorer's estimate); " +
 			"the victim is run alone (4 repetitions; victim scripts are generated under structural conditions that make its decisions independent of map order (first-fit mode, at most one unscraped healthy target per cycle, overloaded or non-first shards report at most one target); cases that still show more than one outcome in 30 repetitions are discarded and counted) and next to the hostile replica in both orders (3 repetitions each) through the real Coordinator.Run; the canonical per-cycle trace of everything the victim's shards and manager receive (GET/POST with target lists as sets, ChangeScale arguments) must be identical; a mismatch is re-examined with 100 repetitions of the victim alone: mixed outcomes discard the case, 100 of 100 equal to each other but different from before are reported as state leaking between replicas, and the victim alone is repeated after every case for the same test; " +
+			"plus the Kubernetes replicas manager on a fake clientset: the scripted life of one StatefulSet (ready / not ready / rolling update over 4-11 cycles, 0-130 s passing between cycles through the verif hook that shifts the manager's not-ready timers) is run alone and next to a second scripted StatefulSet listed before or after it; 'handed to the coordinator in this cycle' must be identical; " +
 			"directed family: a target the victim cannot place in an early cycle and can place later while the other replica holds it in every state/series/health combination; non-trivial = case not discarded; distinct = victim script hash + hostile script hash",
 		Assumptions: []string{
 			"the explorer stub hands out one status object per target for the whole run, as Explore.Get does",
 			"per-replica guarantees themselves are judged by C01-C08 on single replicas; C19 judges independence",
 		},
-		NumCases: func(tier string) int {
-			if tier == "thorough" {
-				return c19NDirected + 150000
-			}
-			return c19NDirected + 4000
-		},
+		NumCases: func(tier string) int { return c19Base(tier) + e6.K8sReplicaCases(tier) },
 		Run:           runC19,
 		MinNontrivial: 200,
 	})
